@@ -290,9 +290,11 @@ class MetadataBase(object):
         :type f: file or str
         """
         self.validate()
+        # serialize before opening the destination: a nested validator can
+        # still fail here and must not leave a truncated file behind
+        parser = self._get_parser()
+        self.serialize(parser)
         with open_file_obj(f, "w") as f:
-            parser = self._get_parser()
-            self.serialize(parser)
             self.build_file(parser, f)
 
     def dumps(self):
